@@ -5,7 +5,7 @@ Prepares a seeded-change batch: /tmp/seed/tools (offline env + baseline runner),
 sandbox facts (nothing from /verif). Sub-agents are started with:
   "Read the file /tmp/seed/<sNN>.prompt and carry out the task described there exactly. ..."
 Remove afterwards with: git -C /repo worktree remove --force /tmp/seed/<sNN>; rm -rf /tmp/seed"""
-import json, os, subprocess, sys
+import glob, json, os, subprocess, sys
 os.makedirs('/tmp/seed/tools', exist_ok=True)
 open('/tmp/seed/tools/env.sh', 'w').write('''# source this: offline Go 1.24.7 toolchain for the sebuf repository
 export GOFLAGS=-mod=mod GOPROXY=off GOSUMDB=off GOTOOLCHAIN=local GONOSUMDB='*'
@@ -59,10 +59,20 @@ Sandbox facts you need:
 - node 22 (runs .ts files directly) is at /root/.nvm/versions/node/v22.22.2/bin/node; python3 is available.
 - Keep the demo self-contained and fast (< 1 minute).
 '''
-extra = os.environ.get('SEED_EXTRA', '')
+extra0 = os.environ.get('SEED_EXTRA', '')
+FOCUS = json.load(open('/verif/bin/seed_focus.json')) if os.path.exists('/verif/bin/seed_focus.json') else {}
+taken = {}
+for d in sorted(glob.glob('/verif/seeded/s*/meta.json')):
+    m = json.load(open(d))
+    taken.setdefault(m['property'], []).append(m['summary'].split(' (found independently')[0][:240])
 for a in sys.argv[1:]:
     wt, pid = a.split(':')
     p = props[pid]
+    extra = extra0
+    if taken.get(pid):
+        extra += ' Other people have already tried the following slips for this property; choose a DIFFERENT mechanism at a different code site: ' + ' // '.join('(%d) %s' % (i + 1, t) for i, t in enumerate(taken[pid])) + '.'
+    if FOCUS.get(pid):
+        extra += ' Areas of the property nobody has looked at yet (pick one, or find your own): ' + FOCUS[pid]
     subprocess.run(['git', '-C', '/repo', 'worktree', 'add', '-q', '--detach', '/tmp/seed/' + wt, 'HEAD'], check=True)
     txt = base.format(wt='/tmp/seed/' + wt, pid=pid, title=p['title'], statement=p['statement'], qtext=p['quantifier']['text'],
                       files=', '.join(p['anchors']['files']), demo='/tmp/seed/' + wt + '_demo', extra=(' ' + extra if extra else ''))
